@@ -18,9 +18,14 @@ package sn2core
 //@ func AdaptTransactionReceipt
 //@   trusted
 //@ extern func github.com/NethermindEth/juno/core.EmptyStateDiff
-//@   ensures fresh(result.StorageDiffs) && fresh(result.Nonces) && fresh(result.DeployedContracts) && fresh(result.DeclaredV1Classes) && fresh(result.ReplacedClasses) && fresh(result.MigratedClasses) && fresh(result.DeclaredV0Classes)
+//@   ensures (forall a felt.Felt :: !in(result.StorageDiffs, a)) && fresh(result.StorageDiffs) && fresh(result.Nonces) && fresh(result.DeployedContracts) && fresh(result.DeclaredV1Classes) && fresh(result.ReplacedClasses) && fresh(result.MigratedClasses) && fresh(result.DeclaredV0Classes)
+// Merge copies incoming's entries INTO d: a per-contract storage map of d is afterwards either one d
+// already had or a clone made by the call - never incoming's own map (assumed here; core/state_update.go).
+// The entries Merge adds are not modelled (no obligation here reads them); which MAP OBJECTS the
+// merged-into diff holds is: they are the subject of the call-site clauses below.
 //@ extern func github.com/NethermindEth/juno/core.(*StateDiff).Merge
 //@   logged as DiffMerge
+//@   ensures forall a felt.Felt :: in(d.StorageDiffs, a) ==> (old(in(d.StorageDiffs, a)) && d.StorageDiffs[a] == old(d.StorageDiffs[a])) || fresh(d.StorageDiffs[a])
 //@ extern func github.com/NethermindEth/juno/core.EventsBloom
 //@   ensures result != nil && fresh(result)
 //@ extern func github.com/bits-and-blooms/bloom/v3.(*BloomFilter).Merge
@@ -32,7 +37,9 @@ package sn2core
 //@   requires current != nil && delta != nil && current.Block != nil && current.Block.Header != nil && current.StateUpdate != nil
 //@   assigns calls_DiffMerge, arg_DiffMerge_d, arg_DiffMerge_incoming, calls_BloomMerge, arg_BloomMerge_f, arg_BloomMerge_g
 //@   callsite StateDiff.Merge@*: into_maps_of_its_own: $0 != nil && fresh($0) && fresh($0.StorageDiffs) && fresh($0.Nonces) && fresh($0.DeployedContracts) && fresh($0.DeclaredV1Classes) && fresh($0.ReplacedClasses) && fresh($0.MigratedClasses)
+//@   callsite StateDiff.Merge@*: into_storage_maps_of_its_own: forall a felt.Felt :: in($0.StorageDiffs, a) ==> fresh($0.StorageDiffs[a])
 //@   callsite BloomFilter.Merge@*: into_a_bloom_of_its_own: $0 != nil && fresh($0)
+//@   loop 1: invariant own_storage_maps: forall a felt.Felt :: in(nextStateDiff.StorageDiffs, a) ==> fresh(nextStateDiff.StorageDiffs[a])
 //@   loop 1: invariant own_maps: fresh(nextStateDiff.StorageDiffs) && fresh(nextStateDiff.Nonces) && fresh(nextStateDiff.DeployedContracts) && fresh(nextStateDiff.DeclaredV1Classes) && fresh(nextStateDiff.ReplacedClasses) && fresh(nextStateDiff.MigratedClasses)
 //@   loop 1: invariant own_slices: fresh(mergedTxs) && fresh(mergedReceipts) && fresh(mergedStateDiffs) && len(mergedTxs) == n + addedCount && len(mergedReceipts) == n + addedCount && len(mergedStateDiffs) == n + addedCount && n >= 0
 //@   ensures new_entry: result1 == nil ==> result0.Block != nil && fresh(result0.Block) && result0.Block.Header != nil && fresh(result0.Block.Header) && result0.StateUpdate != nil && fresh(result0.StateUpdate) && result0.StateUpdate.StateDiff != nil && fresh(result0.StateUpdate.StateDiff)
